@@ -295,7 +295,9 @@ static bool run(runtime_cfg const& cfg, std::uint64_t rounds, std::uint64_t batc
 {
     using R = round_t<CV, L>;
     rng r(g_seed);
-    std::vector<std::unique_ptr<R>> all;
+    // the rounds live until every task and OS job that may still touch them has finished (a notifier writes its stamps after
+    // its last notification, i.e. possibly after the last waiter has already reported); on failure they are never freed
+    auto& all = *new std::vector<std::unique_ptr<R>>();
     std::uint64_t started = 0, expect = 0;
     while (started < rounds)
     {
@@ -384,6 +386,10 @@ static bool run(runtime_cfg const& cfg, std::uint64_t rounds, std::uint64_t batc
         }
         for (auto& t : oswaiters) t.join();
     }
+    pika::wait();
+    while (g_external_busy.load() != 0) std::this_thread::sleep_for(std::chrono::microseconds(200));
+    pika::wait();
+    delete &all;
     return true;
 }
 
